@@ -379,6 +379,22 @@ func (gs *groupState) pollLoop(m *gmember, script []plan.Op, pattern []plan.Op) 
 			time.Sleep(time.Duration(op.A) * time.Millisecond)
 			continue
 		}
+		switch op.Kind {
+		case "pause_p":
+			m.cl.PauseFetchPartitions(map[string][]int32{op.S: {int32(op.B)}})
+			s.Probe("pause")
+			continue
+		case "resume_p":
+			m.cl.ResumeFetchPartitions(map[string][]int32{op.S: {int32(op.B)}})
+			continue
+		case "pause_t":
+			m.cl.PauseFetchTopics(op.S)
+			s.Probe("pause")
+			continue
+		case "resume_t":
+			m.cl.ResumeFetchTopics(op.S)
+			continue
+		}
 		if !poll(op) {
 			return
 		}
